@@ -96,6 +96,9 @@ func genC20(t *rapid.T) c20Case {
 		cs.Opts.SkipNormalization = true
 	case 2:
 		cs.Opts.SkipConsistencyCheck, cs.Opts.NoResolvePaths = true, true
+	case 3:
+		// the caller registers a Go type for an extension the documents do not even use
+		cs.Opts.KnownExt = rapid.SampledFrom([]string{"value", "pointer"}).Draw(t, "known-extension")
 	}
 	return cs
 }
@@ -203,7 +206,7 @@ func c20Check(c *Ctx, cs c20Case) *Failure {
 	}
 	opts := cs.Opts
 	opts.Profiles = []string{"*"}
-	if cs.Opts.SkipResolveEnvironment || cs.Opts.SkipNormalization || cs.Opts.SkipConsistencyCheck || cs.Opts.NoResolvePaths {
+	if cs.Opts.SkipResolveEnvironment || cs.Opts.SkipNormalization || cs.Opts.SkipConsistencyCheck || cs.Opts.NoResolvePaths || cs.Opts.KnownExt != "" {
 		c.Label("with-loader-options")
 	}
 	lc := loadCase{Files: []memFile{{Name: "compose.yaml", Content: doc}}, Main: []string{"compose.yaml"}, Env: env, Opts: opts}
